@@ -344,6 +344,30 @@ def model_text(base, flags, **kw):
 # bounded_roundtrip
 # --------------------------------------------------------------------------------------------------
 
+# C03 quantifies over texts ACCEPTED by the parser.  A syntax error (lark error / ModelSyntaxError) on
+# a generated text therefore makes the precondition false.  To stay sensitive to a parser that starts
+# to reject ordinary input, a rejection is only tolerated for texts using one of the following
+# syntactic features (decided on the text alone); rejected plain texts fail C_ACCEPT.  Tolerated
+# rejections are counted and returned under 'rejected' (they never count as nontrivial cases).
+def feature_tag(kind, text, flags=()):
+    if 'lower_code' in flags:
+        return 'lower case option keywords'
+    if kind in ('PK', 'PRED', 'ERROR', 'DES'):
+        last = re.split(r'\r?\n', text)[-1]
+        if last.startswith('"'):
+            return 'verbatim line without newline at the end of the text'
+        return None
+    if '\x00' in text:
+        return 'NUL byte as separator in a non-code record'
+    if kind == 'THETA' and re.search(r'\)\s*[xX]\d', text):
+        return '$THETA (...)xn repetition'
+    if kind == 'THETA' and '=' in re.sub(r';[^\n]*', '', text):
+        return '$THETA KEY=VALUE option'
+    if kind in ('OMEGA', 'SIGMA') and re.search(r',', re.sub(r'\([^)]*\)|;[^\n]*', '', text)):
+        return 'comma between $OMEGA/$SIGMA initial estimates'
+    return None
+
+
 _SYNTAX_ERRORS = None
 
 
@@ -364,7 +388,7 @@ def _first_diff(a, b):
     return f'first difference at offset {i}: expected {a[max(0, i - 15):i + 15]!r} got {b[max(0, i - 15):i + 15]!r}'
 
 
-def check_stream(text, pre, chunks):
+def check_stream(text, pre, chunks, tag=None):
     """Contract of NMTranParser.parse / NMTranControlStream.__str__ on one text.
     Returns a list of (fid, clause, detail)."""
     from pharmpy.model.external.nonmem.nmtran_parser import NMTranParser
@@ -373,6 +397,8 @@ def check_stream(text, pre, chunks):
         cs = NMTranParser().parse(text)
         out = str(cs)
     except _syntax_errors() as e:
+        if tag:
+            return [(FID_PARSE, 'REJECTED', tag)]
         return [(FID_PARSE, C_ACCEPT, f'{type(e).__name__}: {str(e)[:160]!r}')]
     except Exception as e:
         return [(FID_PARSE, C_INTERNAL, f'{type(e).__name__}: {str(e)[:160]!r}')]
@@ -419,6 +445,9 @@ def check_record(text, kind=None):
         rec = create_record(text)
         out = str(rec)
     except _syntax_errors() as e:
+        tag = feature_tag(kind, text)
+        if tag:
+            return [(FID_CREATE, 'REJECTED', tag)]
         return [(FID_CREATE, C_ACCEPT, f'{type(e).__name__}: {str(e)[:160]!r}')]
     except Exception as e:
         return [(FID_CREATE, C_INTERNAL, f'{type(e).__name__}: {str(e)[:160]!r}')]
@@ -494,7 +523,8 @@ def gen_option_records(tier):
         for seq in _seqs(alphabet, maxlen):
             seps = OPTION_SEPS if len(seq) <= 2 else OPTION_SEPS[:6]
             for si in range(len(seps) if len(seq) > 1 else 1):
-                for lead in (' ', '\n', '\t ', ' ; c\n '):
+                leads = (' ', '\n', '\t ', ' ; c\n ')
+                for lead in leads if len(seq) == 1 else (leads[k % 4], leads[(k + 1) % 4]):
                     k += 1
                     name = names[k % len(names)]
                     tail = OPTION_TAILS[k % len(OPTION_TAILS)]
@@ -519,7 +549,8 @@ def gen_theta_records(tier):
     for seq in _seqs(THETA_ITEMS, maxlen):
         seps = THETA_SEPS if len(seq) <= 2 else THETA_SEPS[:5]
         for si in range(len(seps) if len(seq) > 1 else 1):
-            for lead in (' ', '\n', '  ; c\n'):
+            leads = (' ', '\n', '  ; c\n')
+            for lead in leads if len(seq) == 1 else (leads[k % 3],):
                 for tail in THETA_TAILS if len(seq) == 1 else (THETA_TAILS[k % len(THETA_TAILS)],):
                     k += 1
                     name = ('$THETA', '$THE', '$theta', '$THET')[k % 4]
@@ -543,7 +574,8 @@ def gen_omega_records(tier):
                 continue
             seps = OMEGA_SEPS if len(seq) <= 2 else OMEGA_SEPS[:5]
             for si in range(len(seps) if len(seq) > 1 else 1):
-                for head in (' ', '\n', ' DIAGONAL(%d) ' % len(seq), ' DIAG(%d)\n' % len(seq)):
+                heads = (' ', '\n', ' DIAGONAL(%d) ' % len(seq), ' DIAG(%d)\n' % len(seq))
+                for head in heads if len(seq) == 1 else (heads[k % 4], heads[(k + 1) % 4]):
                     k += 1
                     tail = THETA_TAILS[k % len(THETA_TAILS)]
                     yield kind, name + head + _join_cycle(seq, seps, si) + tail
@@ -625,7 +657,8 @@ def gen_abbr_records(tier):
     k = 0
     for seq in _seqs(ABBR_OPTS, maxlen):
         for si in range(len(seps) if len(seq) > 1 else 1):
-            for lead in (' ', '\n', '  ; c\n'):
+            leads = (' ', '\n', '  ; c\n')
+            for lead in leads if len(seq) == 1 else (leads[k % 3],):
                 k += 1
                 name = ('$ABBREVIATED', '$ABBR', '$ABB', '$abbr')[k % 4]
                 tail = OPTION_TAILS[k % len(OPTION_TAILS)]
@@ -743,21 +776,28 @@ def _pool_init():
 def _rt_stream_worker(case):
     base, flags = case
     text, pre, chunks = model_text(base, flags)
-    return [(f, c, d, {'kind': 'stream', 'base': base, 'flags': list(flags)}, len(text)) for f, c, d in
-            check_stream(text, pre, chunks)]
+    return [(f, c, d if c == 'REJECTED' else d + f' for the {base} base model with layout variants {list(flags)}',
+             {'kind': 'stream', 'base': base, 'flags': list(flags)}, len(text))
+            for f, c, d in check_stream(text, pre, chunks, feature_tag(None, text, flags))]
 
 
 def _rt_record_worker(cases):
     out = []
     for kind, text in cases:
         for f, c, d in check_record(text, kind):
-            out.append((f, c, d + f' for record text {text!r}', {'kind': 'record', 'rkind': kind, 'text': text}, len(text)))
+            out.append((f, c, d if c == 'REJECTED' else d + f' for record text {text!r}',
+                        {'kind': 'record', 'rkind': kind, 'text': text}, len(text)))
     return out
 
 
-def _collect(fails, results):
+def _collect(fails, results, rejected=None):
     """keep the smallest failing input per (fid, clause)"""
     for f, c, d, case, size in results:
+        if c == 'REJECTED':
+            n, sz, ex = rejected.get(d, (0, 10**9, None))
+            ex = case.get('text', case.get('flags')) if size < sz else ex
+            rejected[d] = (n + 1, min(sz, size), ex)
+            continue
         key = (f, c)
         if key not in fails or size < fails[key][0]:
             fails[key] = (size, d, case)
@@ -782,12 +822,13 @@ def bounded_roundtrip(tier):
     stream_cases = [(base, fl) for base in ('advan', 'pred') for fl in _flag_sets(LAYOUT_FLAGS, maxflags)]
     record_cases = list(_gen_record_cases(tier))
     fails = {}
+    rejected = {}
     ctx = mp.get_context('fork')
     with ctx.Pool(NPROC, initializer=_pool_init) as pool:
         for res in pool.imap_unordered(_rt_stream_worker, stream_cases, chunksize=4):
-            _collect(fails, res)
+            _collect(fails, res, rejected)
         for res in pool.imap_unordered(_rt_record_worker, list(_chunked(record_cases, 200))):
-            _collect(fails, res)
+            _collect(fails, res, rejected)
     # order independence / determinism: the same texts parsed again in one process, reversed order
     sub = record_cases[:: max(1, len(record_cases) // 300)]
     from pharmpy.model.external.nonmem.records.factory import create_record
@@ -806,12 +847,15 @@ def bounded_roundtrip(tier):
         if a[t] != b[t]:
             _collect(fails, [(FID_CREATE, C_STABLE, f'{t!r}: {a[t]!r} then {b[t]!r}', {'kind': 'record', 'rkind': None, 'text': t}, len(t))])
     ncases = len(stream_cases) + len(record_cases)
+    nrejected = sum(n for n, _, _ in rejected.values())
     return {
         'cases': ncases,
-        'nontrivial': ncases,
+        'nontrivial': ncases - nrejected,
+        'rejected': {tag: {'count': n, 'smallest': ex} for tag, (n, _, ex) in sorted(rejected.items())},
         'bound': f'2 base models x all subsets of <= {maxflags} of {len(LAYOUT_FLAGS)} layout variants '
         f'({len(stream_cases)} control streams) + {len(record_cases)} single record texts: every sequence of <= '
-        f'{maxflags} options/values/code lines over the per-record alphabets x separators x tails',
+        f'{maxflags} options/values/code lines over the per-record alphabets x separators x tails; '
+        f'{nrejected} texts with exotic features are rejected by the parser (outside the precondition)',
         'samples': [repr(model_text('advan', ('crlf', 'abbrev'))[0][:120]), repr(record_cases[len(record_cases) // 2]),
                     repr(record_cases[-1])],
         'fails': _fails_list(fails, 'bounded_roundtrip_replay'),
